@@ -4,6 +4,9 @@ use crate::sgen::G;
 use crate::model::Scenario;
 
 pub mod c01;
+pub mod c02;
+pub mod c03;
+pub mod c04;
 
 pub struct PropDef {
     pub id: &'static str,
@@ -20,7 +23,7 @@ pub struct PropDef {
 }
 
 pub fn all() -> Vec<PropDef> {
-    vec![c01::def()]
+    vec![c01::def(), c02::def(), c03::def(), c04::def()]
 }
 
 pub fn get(id: &str) -> Option<PropDef> {
